@@ -30,6 +30,17 @@ def str_lit(x: str):
     return _LITS[x]
 
 
+TRUTHY = z3.Const("is_truthy", z3.ArraySort(Ref, B))
+
+
+def global_axioms():
+    """trusted facts about opaque objects: coroutine objects, coroutine functions and callables passed to
+    the pool are truthy (no exotic __bool__/__len__)"""
+    x = z3.Const("x!ax", Ref)
+    arr = lambda n: z3.Const(n, z3.ArraySort(Ref, B))
+    return [z3.ForAll([x], z3.Implies(z3.Or(z3.Select(arr("is_coro"), x), z3.Select(arr("is_corofunc"), x), z3.Select(arr("is_callable"), x)), z3.Select(TRUTHY, x)))]
+
+
 def string_axioms():
     """trusted facts about strings (DESIGN 11.9): distinct literals are different, str(int) is injective, a
     format whose last hole is str(<non-negative int>) after a non-digit literal is injective in that hole"""
@@ -506,7 +517,9 @@ def truthy(v: V):
             return z3.BoolVal(v.nonempty)
         return str_nonempty(v.t)
     if isinstance(v, RefV):
-        return v.t != NONE
+        # an arbitrary object: None is falsy, anything else *may* be falsy (empty containers returned by pool
+        # methods, ...); tasks, coroutines and callables are truthy (global_axioms / invariant)
+        return z3.And(v.t != NONE, z3.Select(TRUTHY, v.t))
     if isinstance(v, NoneV):
         return z3.BoolVal(False)
     if isinstance(v, OptV):
